@@ -285,3 +285,29 @@ Definition dbc_skel (b : rbus) : list ev :=
 
 (* ExportBus for every bus of the network, in Buses() order *)
 Definition dbc_raw (o : oracle) (r : rnet) : list (list ev) := map dbc_skel (rt_buses (walk o r)).
+
+(* ExportNetwork: one file per bus, each the ExportBus output of that bus, in Buses() order.  The
+   goroutines that write the files (and their number) are not in the model: the number of CPUs is
+   varied on the implementation side only. *)
+Definition export_network_raw (o : oracle) (r : rnet) : list (list ev) := dbc_raw o r.
+
+(* ---------------------------------------------------------------- histories *)
+
+(* An application interleaves READS (exports, getters — each with its own map iteration orders)
+   with CHANGES of the model.  In the model a read has no access to the state it could change:
+   the state after a history is the state after its changes alone. *)
+Definition outputs (o : oracle) (r : rnet) := (md_raw o r, save_raw o r, export_network_raw o r).
+
+Inductive hev :=
+| HRead (o : oracle)
+| HMut (f : rnet -> rnet).
+
+Fixpoint hrun (evs : list hev) (s : rnet) : rnet :=
+  match evs with
+  | [] => s
+  | HRead _ :: r => hrun r s
+  | HMut f :: r => hrun r (f s)
+  end.
+
+Definition changes_only (evs : list hev) : list hev :=
+  filter (fun e => match e with HMut _ => true | HRead _ => false end) evs.
